@@ -8,7 +8,7 @@ from hypothesis import strategies as st
 import aiohomekit.controller.coap.connection as coap_conn_mod
 from vlib import refhap, vtime
 from vlib.coapsim import CHARS, CoapWorld
-from vlib.refhap import T_ERROR, T_STATE
+from vlib.refhap import T_ERROR, T_STATE, tlv_dec
 from vlib.runner import Layer
 
 READABLE = {i for i, c in CHARS.items() if c[3] & 0x10}
@@ -54,7 +54,10 @@ def run_c13_coap(case, R):
             p.dispatcher_connect(lambda ev: events.append(dict(ev)))
             await p.list_accessories_and_characteristics()
             events.clear()
-            values = {iid: value_for(iid, case.get("sel", 0) + i) for i, iid in enumerate(ids)}
+            unknown = [iid for iid in ids if iid not in CHARS]          # not in the accessory's database (stale entity, wrong id)
+            values = {iid: (value_for(iid, case.get("sel", 0) + i) if iid in CHARS else 7) for i, iid in enumerate(ids)}
+            if unknown:
+                R.cls("coap:unknown-id")
             for iid, o in zip(ids, outs):
                 if isinstance(o, int):
                     (w.acc.write_status if mode == "write" else w.acc.read_status)[iid] = o
@@ -81,14 +84,35 @@ def run_c13_coap(case, R):
                         w.acc.values[iid] = wire(iid, values[iid])
                     res = await p.get_characteristics([(1, iid) for iid in ids])
             except Exception as e:  # noqa: BLE001
-                R.fail("C13.write-raises" if mode == "write" else "C13.read-raises", f"{what}: {type(e).__name__}: {e}", exc=type(e).__name__)
-                return
+                if unknown:
+                    R.cls("coap:unknown-id-refused")       # refusing the whole batch is fine - provided nothing wrong was sent
+                    res = None
+                else:
+                    R.fail("C13.write-raises" if mode == "write" else "C13.read-raises", f"{what}: {type(e).__name__}: {e}", exc=type(e).__name__)
+                    return
             await vtime.settle(loop)
+            if mode == "write":
+                # every write PDU that reached the accessory carries the value requested for that very instance id
+                for op_, tid_, iid_, body_ in w.acc.requests:
+                    if op_ == 0x02 and iid_ != 4:
+                        sent = dict(tlv_dec(body_)).get(1)
+                        if iid_ not in values or iid_ not in CHARS or sent != wire(iid_, values[iid_]):
+                            R.fail("C17.pdu-misattributed", f"{what}: the accessory received a write of {sent!r} for instance id {iid_}; requested "
+                                   f"{ {i: values[i] for i in ids} }", transport="coap")
+                            return
+            if res is None:
+                return
+            for iid in unknown:
+                got = res.get((1, iid))
+                if not got or not got.get("status"):
+                    R.fail("C13.rejected-reported-as-written" if mode == "write" else "C13.read-status", f"{what}: {iid} is not in the accessory database; result {got!r}", code="coap-unknown")
+                    return
+            ids_known = [(iid, o) for iid, o in zip(ids, outs) if iid in CHARS]
             notified = {}
             for ev in events:
                 for key, val in ev.items():
                     notified.setdefault(key[1], []).append(val)
-            for i, (iid, o) in enumerate(zip(ids, outs)):
+            for i, (iid, o) in enumerate(ids_known):
                 got = res.get((1, iid))
                 if mode == "write":
                     if o == "ok":
@@ -135,6 +159,9 @@ def run_c13_coap(case, R):
 def enum_c13_coap(tier):
     wr = [10, 12, 13, 11]
     rd = [10, 12, 15, 16]
+    for mode in ("write", "read"):
+        for ids in ([91], [91, 10], [10, 91], [10, 91, 12], [10, 12, 91], [91, 92], [12, 91, 10, 92]):
+            yield {"ids": ids, "outcomes": ["ok"] * len(ids), "mode": mode, "sel": len(ids)}
     for mode, pool in (("write", wr), ("read", rd)):
         for n in (1, 2, 3):
             for vec in itertools.product(OUTCOMES, repeat=n):
@@ -149,6 +176,9 @@ def c13_coap_cases(draw):
     pool = sorted(WRITABLE) if mode == "write" else sorted(READABLE)
     n = draw(st.integers(1, min(6, len(pool))))
     ids = draw(st.lists(st.sampled_from(pool), min_size=n, max_size=n, unique=True))
+    if draw(st.integers(0, 7)) == 0:           # an id that is not in the accessory's database, anywhere in the batch
+        ids.insert(draw(st.integers(0, len(ids))), draw(st.sampled_from([91, 92, 1, 65535])))
+        return {"ids": ids, "outcomes": ["ok"] * len(ids), "mode": mode, "sel": draw(st.integers(0, 1000)), "k": draw(st.integers(0, 9))}
     return {"ids": ids, "outcomes": [draw(st.sampled_from(["ok", "ok", "ok"] + OUTCOMES)) for _ in ids], "mode": mode, "sel": draw(st.integers(0, 1000)), "k": draw(st.integers(0, 9))}
 
 
